@@ -12,6 +12,10 @@
 static void* storage;
 static Sha256* sha;
 
+// second object: a copy taken mid-stream (op `fork`), exchanged with the active one by `swap`
+static void* storage2;
+static Sha256* sha2;
+
 static void fresh()
 {
   if(sha) sha->~Sha256();
@@ -19,6 +23,21 @@ static void fresh()
   storage = malloc(sizeof(Sha256));
   memset(storage, 0xAA, sizeof(Sha256));
   sha = new(storage) Sha256;
+  if(sha2) sha2->~Sha256();
+  free(storage2);
+  storage2 = malloc(sizeof(Sha256));
+  memset(storage2, 0xAA, sizeof(Sha256));
+  sha2 = new(storage2) Sha256;
+}
+
+// `Sha256 copy(*sha)` (implicit copy constructor) into fresh poisoned storage
+static void forkObject()
+{
+  sha2->~Sha256();
+  free(storage2);
+  storage2 = malloc(sizeof(Sha256));
+  memset(storage2, 0xAA, sizeof(Sha256));
+  sha2 = new(storage2) Sha256(*sha);
 }
 
 static bool validHex(const char* t)
@@ -88,6 +107,14 @@ int main()
       }
     }
     else if(hxIs(l, "rst", 0)) { sha->reset(); printf("ok"); hxEndLine(); }
+    else if(hxIs(l, "fork", 0)) { forkObject(); printf("ok"); hxEndLine(); }
+    else if(hxIs(l, "assign", 0)) { *sha2 = *sha; printf("ok"); hxEndLine(); }     // implicit copy assignment
+    else if(hxIs(l, "swap", 0))
+    {
+      void* ts = storage; storage = storage2; storage2 = ts;
+      Sha256* t = sha; sha = sha2; sha2 = t;
+      printf("ok"); hxEndLine();
+    }
     else if(hxIs(l, "update", 1))
     {
       d = hxBytes(l.tok[1], len);
